@@ -391,6 +391,9 @@ pub fn run(_ctx: &mut WorkerCtx, job: &Value) -> JobOutput {
         let ops = ops.clone();
         let results = results.clone();
         bodies.push(Box::new(move || {
+            // proc.slow_clock: the threads that run the system under test see a monotonic clock
+            // that jumps forward at every read (never the simulator's own threads)
+            crate::engines::set_mono_step(crate::engines::mono_step_from_env());
             for op in &ops {
                 let r = exec_op(op);
                 results.lock().unwrap_or_else(|e| e.into_inner())[ti].push(r);
